@@ -6,7 +6,7 @@ for f in sys.argv[1:]:
     print(f, 'states', p['states'], 'evals', p['evaluations'], 'viol', len(p['violations']), 'dropped', p['dropped_violations'], 'herr', p['harness_error'])
     cls = collections.OrderedDict()
     for v in p['violations']:
-        d = re.sub(r'[-+]?[0-9][0-9a-fx.e+-]*', '#', v['detail'])[:90]
+        d = re.sub(r'[-+]?[0-9][0-9a-fx.e+-]*', '#', v['detail'])[:60]
         cls.setdefault(d, []).append(v['key'])
     for d, ks in cls.items():
         print('  %5d  %s   e.g. %s' % (len(ks), d, ' | '.join(k[:50] for k in ks[:4])))
